@@ -55,6 +55,7 @@ def run(ctx):
     ctx.do(rule_presence_by_membership, rule_id="C02.constraints")
     ctx.do(rule_definition_of_named_type)
     ctx.do(rule_integer_tests_exclude_bool)
+    ctx.do(rule_ignorecase_is_ascii)
     ctx.do(rule_helpers_examine_every_pair)
     # timestamps are emitted with the digits their slot prescribes only if every value went through the truncation pipeline
     from . import C15
@@ -507,6 +508,37 @@ def rule_helpers_examine_every_pair(ctx, rule_id="C02.constraints"):
                       expected="no break / return inside the loops", found=[short(x, 30) for x in exits])
     if n < 2:
         raise AnalysisError("fewer than 2 loops in the co-constraint helpers (%d)" % n)
+
+
+def rule_ignorecase_is_ascii(ctx, rule_id="C02.hash-regex"):
+    """A str pattern compiled with IGNORECASE and without ASCII folds case by Unicode rules: `[a-z]` then also matches U+017F
+    (long s) and U+212A (Kelvin sign).  The value regexes describe ASCII alphabets (hex digits, the ssdeep alphabet); compiled
+    that way they admit non-ASCII text, which is emitted.  Every IGNORECASE compilation of a validating expression is ASCII."""
+    run = ctx.run
+    prog = ctx.prog
+    n = 0
+    for fi_or_mod in list(prog.modules.values()):
+        m = fi_or_mod
+        if m.relpath.startswith("stix2/test"):
+            continue
+        k_ = 0
+        for c in ast.walk(m.tree):
+            if not (isinstance(c, ast.Call) and norm(c.func) in ("re.compile", "re.match", "re.fullmatch", "re.search")):
+                continue
+            flags = [a_ for a_ in c.args[1:]] + [k.value for k in c.keywords if k.arg == "flags"]
+            ftxt = " ".join(norm(f_) for f_ in flags)
+            if not any(t in ftxt for t in ("re.I", "re.IGNORECASE")):
+                continue
+            n += 1
+            k_ += 1
+            ok = any(t in ftxt.replace("re.IGNORECASE", "").replace("re.I", "") for t in ("re.A", "re.ASCII")) or "re.ASCII" in ftxt or "re.A" in [
+                x.strip() for x in ftxt.replace("|", " ").split()]
+            run.check(ok, rule_id, key(m.relpath, "<module>", "ignorecase-is-ascii#%d" % k_),
+                      "a validating expression is compiled with IGNORECASE but without ASCII: its letter classes also match non-ASCII "
+                      "characters that case-fold to ASCII letters (U+017F, U+212A), so such text passes validation and is emitted",
+                      file=m.relpath, line=c.lineno, function="<module>", expected="re.I | re.A", found=ftxt)
+    if n < 2:
+        raise AnalysisError("fewer than 2 IGNORECASE compilations found (%d)" % n)
 
 
 def rule_integer_tests_exclude_bool(ctx, rule_id="C02.constraints"):
